@@ -70,7 +70,7 @@ def fill(chk):
         "Trusted: Go memory model; externals table (sha512.New returns a fresh object, crypto/rand.Reader is concurrency-safe); the flow-insensitive provenance analysis is an over-approximation and unknown provenance fails closed.",
         'mod/ref effects analysis with bottom-up summaries over go/ssa', 'DESIGN.md section 5 C15')
     chk("C16", "other",
-        'Decides that both precomputed tables are exactly the documented multiples of B (recomputed independently, both layouts), the digit-to-table schedule of the fixed-base loop (every radix-16 digit i is looked up at position i/2, added once and doubled 4*(i mod 2) times afterwards; t*d exactly for position-0 entries that go through the niels addition) and of the double-base loop (window and table sizes, table of odd multiples, neutral start, start at the highest non-zero digit, per digit one doubling then +-table[|d|/2] with the digit's sign bit), the table selector on its complete 32x17 domain (reference and assembly variants), uniformity of the unrolled conditional-move, exact digit extraction of both recodings, that no scratch table is shared between calls, and that the field operations used around the loops are exact modulo p and free of overflow under every magnitude the group law produces.',
+        'Decides that both precomputed tables are exactly the documented multiples of B (recomputed independently, both layouts), the digit-to-table schedule of the fixed-base loop (every radix-16 digit i is looked up at position i/2, added once and doubled 4*(i mod 2) times afterwards; t*d exactly for position-0 entries that go through the niels addition) and of the double-base loop (window and table sizes, table of odd multiples, neutral start, start at the highest non-zero digit, per digit one doubling then +-table[|d|/2] with the sign bit of the digit), the table selector on its complete 32x17 domain (reference and assembly variants), uniformity of the unrolled conditional-move, exact digit extraction of both recodings, that no scratch table is shared between calls, and that the field operations used around the loops are exact modulo p and free of overflow under every magnitude the group law produces.',
         TB + " Not decided: that the signed recodings represent their input and that the group-law formulas are the Edwards addition, hence that the schedule yields [s]B and [s1]P+[s2]B for all scalars.",
         'constant-table audit with independent big-integer curve arithmetic + finite abstract evaluation + bit provenance + polynomial value numbers', 'DESIGN.md section 5 C16')
     chk("C17", "other",
